@@ -256,6 +256,10 @@ def generate(seed, tier):
     objs = {t['name']: t['object'] for t in types if t['object']}
     lines = []
     k = 0
+    # what the property names explicitly is probed whether or not the live type still flags it
+    for ty, fld in (('ApiUser', 'password'),):
+        if not any(h['type'] == ty and h['field'] == fld for h in hidden):
+            hidden = hidden + [{'type': ty, 'field': fld, 'live': 1}]
     for h in hidden:
         if not h['live'] or h['type'] not in objs:
             continue
